@@ -352,6 +352,20 @@ def bounded(tier, seed):
         col.add({**sub.violations[0], "sig": "native::coherence::leftover_of_earlier_call"} if sub.violations else None)
     except Exception as e:
         col.add({"sig": f"native::coherence::exception::{type(e).__name__}", "what": str(e)[:200], "input": {"scenario": "two update_state calls on one state object"}})
+    try:  # built-in Gibbs kernels start from the state they are handed (hyper-parameters changed after the kernel was created)
+        from rtc.c13 import tau2_case
+        sub = util.Collector()
+        tau2_case(sub, np.random.default_rng(seed + 3), True, True)
+        col.add({**sub.violations[0], "sig": "native::threading::tau2_kernel_state"} if sub.violations else None)
+    except Exception as e:
+        col.add({"sig": f"native::coherence::exception::{type(e).__name__}", "what": str(e)[:200], "input": {"scenario": "tau2 kernel with changed hyper-parameters"}})
+    try:  # building the finite-discrete Gibbs kernel leaves the user's model as it was (its state stays a coherent start state)
+        from rtc.c13 import discrete_case
+        sub = util.Collector()
+        discrete_case(sub, np.random.default_rng(seed + 5))
+        col.add({**sub.violations[0], "sig": "native::coherence::finite_discrete_kernel_side_effect"} if sub.violations else None)
+    except Exception as e:
+        col.add({"sig": f"native::coherence::exception::{type(e).__name__}", "what": str(e)[:200], "input": {"scenario": "finite-discrete kernel construction"}})
     try:
         pit_case(col, seed + 8)
     except Exception as e:
@@ -378,7 +392,7 @@ def bounded(tier, seed):
         "rule": (CORE_RULE + "; " + f"BOUNDED: Liesel model (mu, log_sigma, derived sigma=exp(log_sigma), leaf pred=2mu+1, 5 observations) with kernel sequences RW(mu) + "
                  f"{{Gibbs, NUTS, IWLS}}(log_sigma), auto_update on and off, {n} jitted iterations each: after every single-kernel transition and every iteration the stored sigma, pred, "
                  "log-lik, log-prior, log-prob are compared with closed-form recomputation from the stored parameters (float64), and the other block must be bitwise "
-                 f"unchanged; same blockwise check on a dict model with RW + HMC; a model whose likelihood sits on a weak variable with a distribution (value path deeper than parameter path, single-key positions); a model built with the deprecated GraphBuilder.transform (a calculation directly on a value node) sampled with variable-name position keys; two update_state calls with different keys on one state object; a Gibbs kernel whose draws have another dtype than the stored value (eager); a model with a legacy PIT node (caching node outside the Calc / Dist hierarchy) under two RW kernels; two order-sensitive deterministic Gibbs kernels with "
+                 f"unchanged; same blockwise check on a dict model with RW + HMC; a model whose likelihood sits on a weak variable with a distribution (value path deeper than parameter path, single-key positions); a model built with the deprecated GraphBuilder.transform (a calculation directly on a value node) sampled with variable-name position keys; two update_state calls with different keys on one state object; a Gibbs kernel whose draws have another dtype than the stored value (eager); the built-in tau2 Gibbs kernel on a state whose hyper-parameters differ from those at kernel creation; a model with a legacy PIT node (caching node outside the Calc / Dist hierarchy) under two RW kernels; two order-sensitive deterministic Gibbs kernels with "
                  f"identifiers whose alphabetical order differs from the configured order (bare KernelSequence and through EngineBuilder). seed={seed}"),
         "samples": [{"auto_update": False, "kernels": ["RW(mu)", "Gibbs(log_sigma)"]}],
         "exhaustive": False, "violations": col.violations,
